@@ -491,6 +491,45 @@ def pathsFrom (L : Lat) : Nat → Nat → List (List Link)
 
 def pathWeight (w : Link → Nat) (ls : List Link) : Nat := (ls.map w).foldr (· * ·) 1
 
+/-! ### integer forward / backward (`lattice_bestpath` alpha part l.775-787, 823, 844, 863-884;
+`lattice_posterior` l.933-986), abstract over the log-add function -/
+
+/-- what the integer passes read besides the lattice: `logmath_add`, `logmath_get_zero`, and the scaled
+link score `(int32)((ascr << SENSCR_SHIFT) * ascale)` (a float32 product, supplied per link) -/
+structure IntParams where
+  ladd : Int → Int → Int
+  lz : Int
+  sc : Link → Int
+
+/-- alphas before the traversal: 0 on the exits of the start node, log-zero elsewhere -/
+def alphaInit (P : IntParams) (L : Lat) : Link → Int :=
+  fun l => if l ∈ L.links ∧ l.src = L.start then 0 else P.lz
+
+/-- visiting a link: add its own scaled score, then log-add the result into every exit of its target -/
+def alphaVisit (P : IntParams) (L : Lat) (al : Link → Int) (l : Link) : Link → Int :=
+  let a := al l + P.sc l
+  (exits L l.dst).foldl (fun al x => upd al x (P.ladd (al x) a)) (upd al l a)
+
+def alphaInt (P : IntParams) (L : Lat) : Link → Int :=
+  (traverseEdges L).foldl (alphaVisit P L) (alphaInit P L)
+
+/-- `dag->norm`: log-sum of the alphas of the links entering the end node, in entry-list order `ents` -/
+def normInt (P : IntParams) (al : Link → Int) (ents : List Link) : Int :=
+  ents.foldl (fun n x => P.ladd n (al x)) P.lz
+
+/-- beta of one link given the betas of the exits of its target -/
+def betaVisit (P : IntParams) (L : Lat) (be : Link → Int) (l : Link) : Link → Int :=
+  if l.dst = L.final then upd be l 0
+  else upd be l ((exits L l.dst).foldl (fun b x => P.ladd b (be x + P.sc x)) P.lz)
+
+/-- betas: the C code visits the links with `lattice_reverse_edges`; any order in which a link comes
+after all exits of its target gives the same values, the model uses the reversed forward order -/
+def betaInt (P : IntParams) (L : Lat) : Link → Int :=
+  (traverseEdges L).reverse.foldl (betaVisit P L) (fun _ => P.lz)
+
+/-- `lattice_joint`: scaled score of a link chain -/
+def jointInt (P : IntParams) (p : List Link) : Int := (p.map P.sc).sum
+
 /-! ## `fsg_search_lattice` from the history table -/
 
 /-- `fsg_hist_entry_t` as the lattice construction reads it: the grammar arc (`none` for the dummy
